@@ -161,11 +161,15 @@ namespace ratio
     inline smt::lit get_ni() noexcept { return ni; }
     inline void set_ni(const smt::lit &v) noexcept
     {
-      tmp_ni = ni;
+      tmp_ni.push_back(ni);
       ni = v;
     }
 
-    inline void restore_ni() noexcept { ni = tmp_ni; }
+    inline void restore_ni() noexcept
+    {
+      ni = tmp_ni.back();
+      tmp_ni.pop_back();
+    }
 
   public:
     CORE_EXPORT smt::json to_json() const noexcept override;
@@ -201,7 +205,7 @@ namespace ratio
     std::map<std::string, type *> types;                  // the types, indexed by their name, defined within this core..
     std::map<std::string, predicate *> predicates;        // the predicates, indexed by their name, defined within this core..
 
-    smt::lit tmp_ni;             // the temporary controlling literal, used for restoring the controlling literal..
+    std::vector<smt::lit> tmp_ni; // the saved controlling literals (set_ni / restore_ni calls can be nested), used for restoring the controlling literal..
     smt::lit ni = smt::TRUE_lit; // the controlling literal..
 
 #ifdef BUILD_LISTENERS
